@@ -277,7 +277,14 @@ func mkHybridTarget() target {
 			}
 			return ids, err
 		},
-		other: func(r *rand.Rand) { h.Flush() },
+		other: func(r *rand.Rand) {
+			if r.Intn(2) == 0 {
+				h.Flush()
+			} else {
+				var hb, vb, tb, mb bytes.Buffer
+				h.WriteTo(&hb, &vb, &tb, &mb) // serialisation while others write
+			}
+		},
 		close: func() {},
 		probe: func(i int) string {
 			q := h.NewSearch().WithK(1 << 20) // no cut (see the text probe)
